@@ -773,6 +773,106 @@ def compress_case(ctx):
     return names, origin, pad
 
 
+
+# ------------------------------------------------------------------ generator 5: unicode / IDNA text (oracle only)
+
+# fixed (unicode word, A-label) pairs, valid under the default IDNA 2008 (UTS 46) codec; the table is
+# data of the harness, not computed by the library under test
+IDN_WORDS = [("b\u00fccher", b"xn--bcher-kva"), ("m\u00fcnchen", b"xn--mnchen-3ya"), ("caf\u00e9", b"xn--caf-dma"),
+             ("\u043f\u0440\u0438\u043c\u0435\u0440", b"xn--e1afmkfd"), ("\u4f8b\u3048", b"xn--r8jz45g"),
+             ("\u03b5\u03bb\u03bb\u03b7\u03bd\u03b9\u03ba\u03ac", b"xn--hxargifdar"), ("stra\u00dfe", b"xn--strae-oqa"),
+             ("\u65e5\u672c\u8a9e", b"xn--wgv71a119e"), ("\u00f1and\u00fa", b"xn--and-6ma2c"),
+             ("\u017c\u00f3\u0142\u0107", b"xn--kda4b0koi")]
+UNI_DOTS = [".", ".", "\u3002", "\uff0e", "\uff61"]
+UNI_SPECIAL = [b".", b"\\", b'"', b"(", b")", b";", b"@", b"$", b" ", b"\t", b"\n", b"\x00", b"\x01", b"\x1f", b"\x7f",
+               b"a.b", b"a\\.b", b".a", b"a.", b"..", b"\\.", b".\\", b"a b", b"x;y", b'"q"', b"(p)", b"@@", b"a@b", b"$ORIGIN",
+               b"065", b"\\065", b"0", b"A.B", b"Zz", b"-", b"a--b", b"*", b"_sip", b"a.b.c", b"\\\\", b"1.2"]
+_IDN_OK = []
+
+
+def idn_words():
+    """the entries of IDN_WORDS that the installed `idna` package itself maps word <-> A-label
+    (checked with the idna package directly, not through dns.name)"""
+    if not _IDN_OK:
+        _IDN_OK.append([])
+        try:
+            import idna
+
+            if not dns.name.have_idna_2008:
+                return _IDN_OK[0]
+            for w, a in IDN_WORDS:
+                try:
+                    if idna.alabel(idna.uts46_remap(w, False, False)) == a and a[4:].decode("punycode") == w:
+                        _IDN_OK[0].append((w, a))
+                except Exception:  # noqa
+                    pass
+        except Exception:  # noqa
+            pass
+    return _IDN_OK[0]
+
+
+def uni_escape(rng, label):
+    """zone-file text of an ASCII label, written with random (legal) escapes"""
+    out = ""
+    for c in label:
+        ch = chr(c)
+        r = rng.random()
+        if c <= 0x20 or c >= 0x7F:
+            out += "\\%03d" % c
+        elif ch in '"().;\\@$':
+            out += ("\\" + ch) if r < 0.7 else "\\%03d" % c
+        elif ch.isdigit():
+            out += ch if r < 0.8 else "\\%03d" % c
+        else:
+            out += ch if r < 0.75 else (("\\" + ch) if r < 0.88 else "\\%03d" % c)
+    return out
+
+
+def unicode_cases(ctx, n):
+    """(oracle only) names mixing punycode labels with labels made of special ASCII characters:
+    op 35 = Name.to_unicode() -> from_text(str) / Tokenizer.get_name; op 36 = hand-escaped unicode text
+    with unicode dot variants -> from_text(str) / Tokenizer.get_name against the expected labels"""
+    rng = ctx.rng
+    words = idn_words()
+    if not words:
+        ctx.count("unicode:skipped-no-idna2008")
+        return
+    specials = list(UNI_SPECIAL) + [bytes([c]) for c in range(128)]
+    for i in range(n):
+        k = rng.choice([1, 1, 2, 2, 3, 4])
+        labels = []
+        for _ in range(k):
+            r = rng.random()
+            if r < 0.6:
+                l = rng.choice(specials) if rng.random() < 0.7 else specials[i % len(specials)]
+            elif r < 0.8:
+                l = bytes(rng.choice(b"abcXYZ09-_.\\@ ") for _ in range(rng.randint(1, 8)))
+            else:
+                l = rng.choice(words)[1]
+            if l.lower().startswith(b"xn--") and l not in [a for _, a in words]:
+                l = b"x" + l
+            labels.append(l)
+        # at least one IDN label, at a random position, so that the text is not all-ASCII
+        labels.insert(rng.randint(0, len(labels)), rng.choice(words)[1])
+        if rng.random() < 0.7:
+            labels.append(b"")
+        if not nl.fits(labels):
+            continue
+        ctx.count("unicode:to_unicode")
+        yield "unicode_rt", [35, labels]
+        # hand-written text: unicode words, random escapes, unicode dot variants
+        a2u = {a: w for w, a in words}
+        parts = [a2u[l] if l in a2u else uni_escape(rng, l) for l in labels if l != b""]
+        text = ""
+        for j, part in enumerate(parts):
+            text += part
+            if j < len(parts) - 1 or labels[-1] == b"":
+                text += rng.choice(UNI_DOTS)
+        if all(ord(ch) < 128 for ch in text):
+            continue
+        ctx.count("unicode:hand-escaped")
+        yield "unicode_text", [36, text.encode("utf-8"), labels]
+
 # ------------------------------------------------------------------ cases
 
 
@@ -822,6 +922,9 @@ def cases(ctx):
     # ---- 3. wire
     yield from wire_cases(ctx, ctx.n(70, 1300), ctx.n(260, 5200), ctx.n(4, 10))
 
+    # ---- 5. unicode / IDNA text (implementation only)
+    yield from unicode_cases(ctx, ctx.n(400, 6000))
+
     # ---- 4. compression
     for _ in range(ctx.n(180, 3200)):
         names, origin, pad = compress_case(ctx)
@@ -853,6 +956,20 @@ def impl(case):
             t = n.to_text()
             tb = t.encode("latin-1")
             return [tb, _labels_or_err(lambda: dns.name.from_text(t, None)), _labels_or_err(lambda: dns.name.from_text(tb, None))]
+        if op == 35:
+            n = nl.N(case[1])
+            try:
+                u = n.to_unicode()
+            except Exception as e:  # noqa
+                return [nl.exc_code(e), None, None]
+            tail = "" if u.endswith(".") or u == "@" else ""
+            return [u.encode("utf-8"),
+                    _labels_or_err(lambda: dns.name.from_text(u, None)),
+                    _labels_or_err(lambda: dns.tokenizer.Tokenizer(u + tail + "\n").get_name(origin=None))]
+        if op == 36:
+            u = bytes(case[1]).decode("utf-8")
+            return [_labels_or_err(lambda: dns.name.from_text(u, None)),
+                    _labels_or_err(lambda: dns.tokenizer.Tokenizer(u + " 300 IN A\n").get_name(origin=None))]
         if op == 34:
             # the other constructors: unpickling (__setstate__), copy, deepcopy, canonicalize, str labels
             import copy
@@ -985,6 +1102,10 @@ def _oracle(ctx, kind, case, out):
         produced = [out]
     elif op == 34:
         produced = [x for x in out if not isinstance(x, Err)]
+    elif op == 35:
+        produced = [x for x in out[1:] if x is not None and not isinstance(x, Err)]
+    elif op == 36:
+        produced = [x for x in out if not isinstance(x, Err)]
     elif op == 32:
         produced = [out[0]]
     elif op == 7:
@@ -1015,6 +1136,24 @@ def _oracle(ctx, kind, case, out):
                 fail("from_text(to_text(n)) != n (%s input)" % how)
         if back_s != back_b:
             fail("from_text disagrees between str and bytes input")
+    elif op == 35:
+        ls = case[1]
+        text, back, tok = out
+        if isinstance(text, Err):
+            fail("to_unicode raised " + text.text + " for ASCII + valid A-labels")
+        else:
+            for how, b in (("from_text(str)", back), ("Tokenizer.get_name", tok)):
+                if isinstance(b, Err):
+                    fail("to_unicode() output is rejected by " + how + ": " + b.text)
+                elif b != ls:
+                    fail(how + "(to_unicode(n)) != n")
+    elif op == 36:
+        want = case[2]
+        for how, b in (("from_text(str)", out[0]), ("Tokenizer.get_name", out[1])):
+            if isinstance(b, Err):
+                fail("escaped unicode text is rejected by " + how + ": " + b.text)
+            elif b != want:
+                fail(how + " of escaped unicode text gives different labels")
     elif op == 34:
         ls = case[1]
         names = ["__setstate__", "pickle", "copy", "deepcopy", "canonicalize", "str labels"]
@@ -1227,4 +1366,21 @@ def widen(ctx, disagreements):
 
 
 # failing cases are shrunk before they are reported (see namelib.with_shrinking)
-oracle = nl.with_shrinking("pC01", _oracle)
+def shrink_ok(case):
+    """candidates produced by the shrinker must stay inside the domain the oracle is stated for"""
+    op = case[0]
+    if op == 36:
+        return False  # text and expected labels are coupled: not shrunk
+    if op == 35:
+        known = [a for _, a in idn_words()]
+        ls = case[1]
+        return (isinstance(ls, list) and all(isinstance(l, bytes) for l in ls) and nl.fits(ls)
+                and all(max(l, default=0) < 128 for l in ls)
+                and all((not l.lower().startswith(b"xn--")) or l in known for l in ls)
+                and any(l in known for l in ls))
+    if op in (30, 31, 32, 34) and op != 34:
+        return isinstance(case[1], list) and nl.fits(case[1])
+    return True
+
+
+oracle = nl.with_shrinking("pC01", _oracle, ok=shrink_ok)
